@@ -299,7 +299,32 @@ func init() {
 			return iface{}
 		},
 		"os.ReadDir": func(fr *frame, a []value) value {
-			panic(unsupported("os.ReadDir in file model"))
+			m := fr.i.fsm()
+			name := m.note(fr.i.pathArg(a[0]))
+			d := m.files[name]
+			if d == nil {
+				return tuple{[]value(nil), fr.i.errNotExist("open", name)}
+			}
+			if !d.isDir {
+				return tuple{[]value(nil), fr.i.pathError("readdirent", name, fr.i.globalVal("io/fs", "ErrInvalid"))}
+			}
+			var kids []string
+			for k := range m.files {
+				if k != name && filepath.Dir(k) == name {
+					kids = append(kids, k)
+				}
+			}
+			sort.Strings(kids)
+			// io/fs.dirInfo{fileInfo} is the DirEntry the standard library itself builds from a FileInfo
+			fsp := fr.i.prog.ImportedPackage("io/fs")
+			t := fsp.Type("dirInfo").Object().Type()
+			entries := make([]value, 0, len(kids))
+			for _, k := range kids {
+				st := zero(t).(structure)
+				st[0] = fr.i.fileInfo(k, m.files[k])
+				entries = append(entries, iface{t: t, v: st})
+			}
+			return tuple{entries, iface{}}
 		},
 		"(*os.File).Name": func(fr *frame, a []value) value { return fr.i.handleOf(a[0]).name },
 		"(*os.File).Close": func(fr *frame, a []value) value {
